@@ -188,14 +188,17 @@ def run(tier: str, seed: int) -> int:
     # the same statement for every envelope of a hierarchy signed in one go (sign recursive), three and four levels deep: each level gets exactly
     # its block, verifiable, and nothing else changes
     from . import c09
-    deep = common.pmap(c09.work_recursive, [(seed, 880000 + i, "valid", 3 + i % 2) for i in range(12 if tier == "quick" else 120)], chunk=2)
+    deep_jobs = [(seed, 880000 + i, "valid", 3 + i % 2) for i in range(12 if tier == "quick" else 120)]
+    # ... and with one KMS script (and its keys) per signing party: each level is signed by the KMS its own configuration names (C04-o)
+    deep_jobs += [(seed, 881000 + i, "parties", 2 + i % 2) for i in range(10 if tier == "quick" else 80)]
+    deep = common.pmap(c09.work_recursive, deep_jobs, chunk=2)
     for i, o in enumerate(deep):
         if o is None:
             continue
         res.case(["recursive-depth", i, o.get("nodes")], nontrivial=True)
         res.count("recursive-depth:config-nodes:" + str(min(o.get("nodes", 0), 6)))
         for p_ in o["problems"]:
-            res.spec_failures.append({"job": ["rec", seed, 880000 + i, "valid", 3 + i % 2], "what": "sign recursive: " + p_})
+            res.spec_failures.append({"job": ["rec"] + list(deep_jobs[i]), "what": "sign recursive: " + p_})
     drv.close()
     return finish(res, st, RULE, NOTE)
 
